@@ -105,8 +105,15 @@ def exc_name(x):
     return "ValueError" if isinstance(x, ZeroDivisionError) else ("AttributeError" if isinstance(x, AttributeError) else "other:" + type(x).__name__)
 
 
-def fingerprint(x):
-    """class, args and custom attributes of a caught exception, as text"""
+BAD_NAMES = {"unexposed": "unexposed", "private": "_private", "missing": "no_such_method"}
+
+
+def fingerprint(x, calls=()):
+    """class, args and custom attributes of a caught exception, as text.  A refusal of a name that cannot be called is worded
+    differently by the client (single call) and by the daemon (batch): there, it is that call's own if it names the member."""
+    if isinstance(x, AttributeError):
+        names = [BAD_NAMES[c["m"]] for c in calls if c["m"] in BAD_NAMES]
+        return "AttributeError|names the member" if any(repr(n) in str(x) or ("'%s'" % n) in str(x) for n in names) else "AttributeError|" + str(x)[:80]
     attrs = {k: v for k, v in vars(x).items() if k != "_pyroTraceback"}
     return "%s.%s|%s|%s" % (type(x).__module__, type(x).__name__, json.dumps(list(x.args), sort_keys=True, default=repr),
                             json.dumps(attrs, sort_keys=True, default=repr)) if isinstance(x, ZeroDivisionError) else type(x).__name__
@@ -120,7 +127,7 @@ def sequential(p, calls):
         except (S.Hang, S.SchedAbort):
             raise
         except Exception as x:
-            return {"results": res, "exc": exc_name(x), "pos": i + 1, "fp": fingerprint(x)}
+            return {"results": res, "exc": exc_name(x), "pos": i + 1, "fp": fingerprint(x, calls)}
     return {"results": res, "exc": "", "pos": 0, "fp": ""}
 
 
@@ -134,7 +141,7 @@ def submit_batch(P, bp, calls, oneway):
     except (S.Hang, S.SchedAbort):
         raise
     except Exception as x:
-        out.update(exc=exc_name(x), where="submit", fp=fingerprint(x))
+        out.update(exc=exc_name(x), where="submit", fp=fingerprint(x, calls))
         return out
     if oneway:
         out["ret_none"] = gen is None
@@ -145,7 +152,7 @@ def submit_batch(P, bp, calls, oneway):
     except (S.Hang, S.SchedAbort):
         raise
     except Exception as x:
-        out.update(exc=exc_name(x), where="position", pos=len(out["results"]) + 1, fp=fingerprint(x))
+        out.update(exc=exc_name(x), where="position", pos=len(out["results"]) + 1, fp=fingerprint(x, calls))
     return out
 
 
@@ -164,6 +171,9 @@ def run_cases(cases, servertype):
         J = make_target()
         ua = d.register(J(), "a")
         ub = d.register(J(), "b")
+        # the same journal as a registered class with one instance per connection: the state belongs to the caller's connection
+        usa = d.register(P.behavior(instance_mode="session")(make_target()), "sa")
+        usb = d.register(P.behavior(instance_mode="session")(make_target()), "sb")
         drv = memnet.ServerDriver(d)
         for case_no, case in enumerate(cases):
             sc.set_budget(20000)
@@ -171,11 +181,12 @@ def run_cases(cases, servertype):
             tr = {"calls": case["calls"], "pre": case["pre"], "oneway": case["oneway"], "hang": False, "ser": ser, "drain": case["drain"]}
             pa = pb = pr = None
             try:
-                pa, pb, pr = P.Proxy(ua), P.Proxy(ub), P.Proxy(ua)
+                session = bool(case.get("session"))
+                tr["session"] = session
+                pa, pb, pr = P.Proxy(usa if session else ua), P.Proxy(usb if session else ub), P.Proxy(ua)
                 for p in (pa, pb, pr):
                     p._pyroSerializer = ser
                 pr.reset()
-                P.Proxy.reset(pb) if False else None
                 pb.reset()
                 # reference: the calls one after another (the earlier batch's calls first)
                 sequential(pb, case["pre"])
@@ -199,11 +210,13 @@ def run_cases(cases, servertype):
                 tr["bat"] = submit_batch(P, bp, case["calls"], case["oneway"])
                 sc.quiesce()
                 pr._pyroRelease()
-                tr["bat"]["journal"] = P.Proxy(ua).dump() if False else None
-                q = P.Proxy(ua)
-                q._pyroSerializer = ser
-                tr["bat"]["journal"] = q.dump()
-                q._pyroRelease()
+                if session:
+                    tr["bat"]["journal"] = pa.dump()        # the state lives in the caller's own connection
+                else:
+                    q = P.Proxy(ua)
+                    q._pyroSerializer = ser
+                    tr["bat"]["journal"] = q.dump()
+                    q._pyroRelease()
             except S.Hang:
                 tr["hang"] = True
                 tr.setdefault("seq", {"results": [], "exc": "", "pos": 0, "journal": [], "fp": ""})
@@ -249,7 +262,7 @@ def run(ctx):
             for k, ser in enumerate(sers):
                 if ctx.quick and k != (i + oneway) % 4 and len(calls) > 1:
                     continue
-                cases.append({"calls": calls, "pre": [], "oneway": oneway, "ser": ser, "drain": True})
+                cases.append({"calls": calls, "pre": [], "oneway": oneway, "ser": ser, "drain": True, "session": (i + k) % 4 == 1})
     short = [c for c in lists if 1 <= len(c) <= 2]
     # an earlier batch on the same BatchProxy: one whose submission succeeds (what a BatchProxy holds after a submission that
     # itself raised is not something the statement speaks about)
@@ -257,7 +270,7 @@ def run(ctx):
     for i in range(ctx.pick(300, 3000)):
         pre, calls = rng.choice(presafe), rng.choice(short)
         ser = sers[i % 4]
-        cases.append({"calls": calls, "pre": pre, "oneway": rng.random() < 0.3, "ser": ser, "drain": i % 2 == 0})
+        cases.append({"calls": calls, "pre": pre, "oneway": rng.random() < 0.3, "ser": ser, "drain": i % 2 == 0, "session": i % 5 == 2})
     # long batches: a failing member early, late, or nowhere in more than a thousand calls
     # (quick: the early failure only - the model stops there too, the other shapes take TLC minutes)
     for li, (n, failat) in enumerate(((1100, 7), (2300, 3), (1100, 1050), (1100, 0), (2300, 1200))[:ctx.pick(2, 5)]):
